@@ -200,7 +200,19 @@ def verdict(world, out):
                                   "points_spent": e.get("api_points")}
     if last == 72:
         b = [r for r in recs if r["k"] == "budget_exhausted"]
-        return "NO-PROGRESS", {"steps": b[-1]["steps"] if b else None, "stack": (b[-1].get("stack") or [])[:10] if b else None,
+        ph, pe = (b[-1].get("progress_half"), b[-1].get("progress_end")) if b else (None, None)
+        if ph and pe and ph.get("loop") == pe.get("loop") and ph.get("value") is not None \
+                and pe.get("value") is not None and pe["value"] > ph["value"]:
+            # the loop is still accepting points: slow (tiny, barely trained flows), not stuck
+            return "INCONCLUSIVE-SLOW", {"loop": pe["loop"], "progress": [ph["value"], pe["value"]]}
+        if ph and pe and ph.get("loop") != pe.get("loop"):
+            return "INCONCLUSIVE-SLOW", {"loops": [ph.get("loop"), pe.get("loop")]}
+        if not (ph and pe):
+            return "INCONCLUSIVE-SLOW", {"what": "budget exhausted outside a population loop"}
+        if pe.get("bounded_by_max_samples") and (pe.get("n_proposed") or 0) > (ph.get("n_proposed") or 0):
+            # accumulate_weights mode stops at max_samples proposals by construction
+            return "INCONCLUSIVE-SLOW", {"loop": pe["loop"], "n_proposed": [ph.get("n_proposed"), pe.get("n_proposed")]}
+        return "NO-PROGRESS", {"progress_half": ph, "progress_end": pe, "steps": b[-1]["steps"] if b else None, "stack": (b[-1].get("stack") or [])[:10] if b else None,
                                "site": b[-1].get("site") if b else None}
     if last == 71:
         v = [r for r in recs if r["k"] == "violation"][-1]
@@ -234,11 +246,9 @@ LOOP_OWNERS = ("FlowProposal.populate", "ImportanceFlowProposal.draw", "Importan
 def sig_of(res):
     d = res.get("vdetail") or {}
     if res["verdict"] == "NO-PROGRESS":
-        # the loop that burnt the budget, not the line at which the counter ran out
-        for fn in d.get("stack") or []:
-            if fn in LOOP_OWNERS:
-                return (res["verdict"], fn)
-        return (res["verdict"], ((d.get("stack") or ["?"])[-1]))
+        # the loop that burnt the budget and why it accepts nothing, not the line at which the counter ran out
+        pe = d.get("progress_end") or {}
+        return (res["verdict"], f"{pe.get('loop')}|{pe.get('cause')}")
     return (res["verdict"], d.get("exception") or d.get("oracle"))
 
 
@@ -285,7 +295,7 @@ def body(r):
         if res.get("harness_error"):
             raise runner.Harness(str(res["harness_error"])[:2000])
         r.absorb(res)
-        if res["verdict"] not in ("OK-COMPLETED", "OK-REJECTED"):
+        if res["verdict"] not in ("OK-COMPLETED", "OK-REJECTED", "INCONCLUSIVE-SLOW"):
             r.report({"oracle": "C20-" + res["verdict"], "key": rep["key"], "detail": res["vdetail"],
                       "world": rep["world"], "job": rep.get("job")})
         return r.finish("replay of one option run")
@@ -314,7 +324,7 @@ def body(r):
     for job, res in zip(jobs, results):
         if res.get("harness_error"):
             raise runner.Harness(json.dumps(res["harness_error"], default=repr)[:3000])
-        if job["kind"] == "single" and res["verdict"] not in ("OK-COMPLETED", "OK-REJECTED"):
+        if job["kind"] == "single" and res["verdict"] not in ("OK-COMPLETED", "OK-REJECTED", "INCONCLUSIVE-SLOW"):
             single_fail.setdefault(res["labels"][0], set()).add(sig_of(res))
     # phase 2: pairwise covering array over the values that do not already fail on their own
     # (a failing value is reported as a single; it would poison every combination containing it)
@@ -353,11 +363,18 @@ def body(r):
             r.nontrivial_signatures.add(sig)
         if v in ("OK-COMPLETED", "OK-REJECTED"):
             continue
+        if v == "INCONCLUSIVE-SLOW":
+            r.count(r.probes, "inconclusive_slow_population")
+            continue
         labels = res["labels"]
         # attribute a failing combination to a failing single it contains (same failure signature)
         owner = [lb for lb in labels if sig_of(res) in single_fail.get(lb, ())]
         key_labels = owner[:1] if owner else labels
-        key = f"C20|{v}|{'&'.join(sorted(key_labels))}|{sig_of(res)[1]}"
+        if v == "NO-PROGRESS":
+            # a stuck population loop is identified by the loop and the cause, whatever options led to it
+            key = f"C20|NO-PROGRESS|{sig_of(res)[1]}"
+        else:
+            key = f"C20|{v}|{'&'.join(sorted(key_labels))}|{sig_of(res)[1]}"
         r.report({"oracle": "C20-" + v, "key": key,
                   "detail": dict(res["vdetail"] or {}, options=labels, attributed_to=key_labels),
                   "world": res["world"], "job": {"labels": labels}})
@@ -373,7 +390,9 @@ def body(r):
               "(rows of 2-4 options), gauss models in 2 (thorough: and 3) parameters, 1 (thorough: 3) seeds. Verdict "
               "per run from the model seam and the step counter: rejected before the first sampling-phase "
               "likelihood evaluation = ok; completed with RES-* = ok; exception after sampling started / after it "
-              "finished, broken result invariant, or step budget (%d nessai line events) exhausted = violation. "
+              "finished, broken result invariant, or step budget (%d nessai line events) exhausted while the population "
+              "loop's acceptance counter did not move between half and full budget = violation (a loop that is still "
+              "accepting points is reported as inconclusive-slow, not as a violation). "
               "distinct = (option labels, verdict); non-trivial = not rejected up front.")
         % (len(NS_OPTIONS), sum(len(v) for v in NS_OPTIONS.values()), len(INS_OPTIONS),
            sum(len(v) for v in INS_OPTIONS.values()), BUDGET),
